@@ -242,19 +242,19 @@ Theorem C07_argmax_first_spec : forall L mb mx, argmax_first L = Some (mb, mx) -
 Proof. exact argmax_first_spec. Qed.
 (* a chosen target is a slot of the level, differs from the node's module, has exact gain > thr (thr >= 0), is a maximum
    of the gains over the other modules' slots and the FIRST such maximum; declining = no slot's gain exceeds thr *)
-Theorem C07_select_some : forall N thr gain st u mb, select N thr gain st u = Some mb ->
+Theorem C07_select_some : forall N thr gain skey st u mb, select N thr gain skey st u = Some mb ->
   (mb < N)%nat /\
   (0 <= thr -> lab st u <> mb /\ thr < gain st u mb) /\
   (forall t, (t < N)%nat -> t <> lab st u -> mb <> lab st u -> gain st u t <= gain st u mb) /\
   (forall t, (t < mb)%nat -> t <> lab st u -> mb <> lab st u -> gain st u t < gain st u mb).
 Proof. exact select_some. Qed.
-Theorem C07_select_none : forall N thr gain st u, select N thr gain st u = None ->
+Theorem C07_select_none : forall N thr gain skey st u, select N thr gain skey st u = None ->
   forall t, (t < N)%nat -> t <> lab st u -> gain st u t <= thr.
 Proof. exact select_none. Qed.
 (* EVERY permutation list, every start state, every `it` bound: the accepted moves form a good run and the returned state
    is their replay — for all four gain/bookkeeping families at once (gain, move are parameters) *)
-Theorem C07_sweeps_good_run : forall N thr maxit gain move, 0 <= thr -> forall perms it st,
-  let r := sweeps N thr maxit gain move it st perms in
+Theorem C07_sweeps_good_run : forall N thr maxit gain move skey, 0 <= thr -> forall perms it st,
+  let r := sweeps N thr maxit gain move skey it st perms in
   good_run N gain move st (lvl_moves (fst (fst r))) /\ snd (fst r) = run_moves move st (lvl_moves (fst (fst r))).
 Proof. exact sweeps_good. Qed.
 
